@@ -48,6 +48,13 @@ def cases(rng, tier):
                 yield "b58e " + hx(bs), "interior-digit-run"
                 if fill == 0 and ln in (5, 10):
                     yield "b58d " + sx("".join(B58[d_] for d_ in digits)), "interior-digit-run-decode"
+    # valid strings with ONE line terminator / blank / control / invisible character in front or behind
+    for body in [b"\x00" + bytes(range(1, 21)), b"\x6f" + bytes(20), bytes(5), b"\x80" + bytes(range(32)) + b"\x01"] + \
+            [bytes(rng.getrandbits(8) for _ in range(rng.choice([1, 21, 34]))) for _ in range(2 if tier == "quick" else 30)]:
+        for good in (b58check_enc(body), b58enc(body)):
+            for bad in common.edge_variants(good):
+                for op in ("b58d", "b58cd", "b58addr"):
+                    yield "%s %s" % (op, sx(bad)), "edge-character:" + op
     n_rand = 1500 if tier == "quick" else 60000
     # corpus / boundaries
     fixed = [b"\x00", b"\x01", b"\x39", b"\x3a", b"\xff", b"\x00\x00", b"\x00\x01", b"\x01\x00",
